@@ -1,6 +1,7 @@
 import ACModel.Driver.GroupedList
 import ACModel.Driver.Discretizer
 import ACModel.Driver.Carve
+import ACModel.Driver.BaseDisc
 /-
   acdriver: JSON-lines driver around the executable model and the specification predicates.
   One request per line on stdin, one response per line on stdout.
@@ -17,6 +18,9 @@ def dispatch (j : Json) : R Json := do
   | "carve.measure" => DriverCarve.measureReq j
   | "disc.summary" => DriverDisc.summary j
   | "combos" => DriverCarve.combos j
+  | "quantiles" => DriverBase.quantiles j
+  | "ordinal.merge" => DriverBase.ordinalMerge j
+  | "kernels" => DriverBase.kernels j
   | "disc.labels" => DriverDisc.labels j
   | "disc.transform" => DriverDisc.transform j
   | "disc.reload" => DriverDisc.reload j
